@@ -146,7 +146,22 @@ func VerifH_C16_slice_write() {
 	vm.Set("x", x)
 	idx := verifChoose(6) // 3 is one past the end (append), 4 and 5 leave a gap
 	vm.Set("i", idx)
-	switch verifChoose(5) {
+	switch verifChoose(6) {
+	case 5: // elements of a kind no number converts to: the write is refused loudly
+		one := int8(1)
+		sl := []*int8{&one, nil}
+		vm.Set("sl", sl)
+		var v Value
+		var err error
+		kind, _ := verifCatch(func() {
+			v, err = vm.Run("var r = 'ok'; try { sl[i] = x } catch (e) { r = (e instanceof RangeError || e instanceof TypeError) ? 'refused' : 'other' } try { sl.push(x) } catch (e) { r += (e instanceof RangeError || e instanceof TypeError) ? ',refused' : ',other' } r")
+		})
+		verifCover("reached")
+		verifAssert(kind == verifNormal && err == nil, "an unconvertible value written to a bridged slice is an exception of the script, not a Go panic")
+		if kind == verifNormal && err == nil {
+			verifAssert(v.String() != "other" && v.String() != "ok,other" && v.String() != "refused,other", "the refusal is a RangeError or TypeError")
+		}
+		return
 	case 4: // delete: a non-index name is an ordinary property; an element is zeroed or the delete refused
 		sl := []float64{1, 2, 3}
 		vm.Set("sl", sl)
